@@ -942,6 +942,29 @@ def rule_random_graph(F, R):
                     state = 3
             if state == 3: ok = True
             elif state in (1, 2): why = 'after the feasibility test the candidate list must be cut to num_edges (`truncate`) and returned'
+        # (a0) the graph has exactly the requested number of vertices: the candidate list is built over (0..num_vertices) mapped to names
+        import flow as _fl0
+        fl0 = _fl0.Flow(c, max_depth=0)
+        vp = [v for v, nm in roles.items() if nm == 'vertices']
+        okv = False; whyv = 'the vertex list was not found'
+        for b_ in walk(t['body']):
+            if b_['k'] != 'Block': continue
+            for st_ in b_['stmts']:
+                if st_['k'] == 'Let' and st_.get('init') is not None and unwrap_pat(st_['pat']).get('var') in vp:
+                    rngs_ = [x for x in walk(st_['init']) if x['k'] == 'Adt' and canon(x['adt']) == 'std::ops::Range']
+                    incl_ = [x for x in walk(st_['init']) if x['k'] == 'Call' and callee_name(x) == 'std::ops::RangeInclusive::new']
+                    if len(rngs_) == 1 and not incl_:
+                        lo_ = [f['expr'] for f in rngs_[0]['fields'] if f['name'] == 'start'][0]; hi_ = [f['expr'] for f in rngs_[0]['fields'] if f['name'] == 'end'][0]
+                        okv = str(strip(lo_).get('value')) == '0' and rolename(roles, root_var(hi_)) == 'num_vertices' and strip(hi_)['k'] in ('VarRef', 'UpvarRef')
+                        whyv = 'the vertices must be numbered 0..num_vertices (found %s..%s)' % (pp(lo_)[:20], pp(hi_)[:30])
+                        skip_ = [x for x in walk(st_['init']) if x['k'] == 'Call' and (callee_name(x) or '').split('::')[-1] in ('skip', 'take', 'filter', 'step_by', 'rev', 'skip_while', 'take_while', 'dedup')]
+                        if skip_: okv = False; whyv = 'the vertex list is thinned by %s' % (callee_name(skip_[0]) or '').split('::')[-1]
+                    elif incl_ and not rngs_:
+                        lo_, hi_ = incl_[0]['args']
+                        okv = str(strip(lo_).get('value')) == '1' and rolename(roles, root_var(hi_)) == 'num_vertices' and strip(hi_)['k'] in ('VarRef', 'UpvarRef')
+                        whyv = 'the vertices must be as many as requested (found %s..=%s)' % (pp(lo_)[:20], pp(hi_)[:30])
+        R.count('L:vertex-range'); R.obligation(okv, 'L vertex range')
+        if not okv: R.violation(G + 'generate_graph / L / number of vertices', 'L', whyv, t['span']['loc'])
         R.count('L:refuse-not-truncate'); R.obligation(ok, 'L refuse')
         if not ok: R.violation(G + 'generate_graph / L / refuse-not-truncate', 'L', 'an infeasible request must be refused: ' + why, t['span']['loc'])
         # (b) candidates: directed under i != j, undirected from i+1
